@@ -219,11 +219,27 @@ def auth(ctx, prog):
             ctx.violation(rule, body.id, "missing accepting test: " + need, "handle_auth no longer contains the accepting test '%s'" % need, site=body.fn_loc())
     login_sw = [s for s in discr_switches(body, r"option::Option$") if "Login" in body.local_ty(s[4]["l"])]
     login_some = variant_target(login_sw[0], "Some") if login_sw else None
+    # the stored password compared by ct_eq must be the table entry of *this* user name: the Some edge
+    # of `pairs.get(username)`; an unknown user must not be compared against a default/empty password
+    user_known = None
+    for bb, t in body.calls():
+        if callee_path(t).endswith("HashMap::<K, V, S, A>::get") and not body.is_cleanup(bb):
+            ks = flatten_src(provenance(body, t["args"][1]))
+            if any(getattr(s, "fields", None) and s.fields[-1] == "username" for s in ks):
+                for s in discr_switches(body, r"option::Option$"):
+                    if s[4]["l"] == t["dest"]["l"] and not s[4].get("p"):
+                        user_known = variant_target(s, "Some")
+    if user_known is None:
+        ctx.violation(rule, body.id, "unknown user not rejected",
+                      "the result of looking the user name up in the credentials table is not matched (Some/None): an unknown user is compared against a default instead of being rejected", site=body.fn_loc())
     for o in oks:
         doms = [a for a in accepting if a[0] is not None and a[0] in dom.get(o, ())]
         kinds_o = {a[2] for a in doms}
         if {"auth", "external_auth"} <= kinds_o:
             ctx.ok(rule, body.id, "Ok(()) when neither auth nor external_auth is configured", site=body.loc(body.blocks[o]["t"].get("sp")))
+        elif "ct_eq" in kinds_o and "external" not in kinds_o and (user_known is None or user_known not in dom.get(o, ())):
+            ctx.violation(rule, body.id, "password match without known user",
+                          "Ok(()) after ct_eq is not dominated by the Some edge of the credentials-table lookup for this user name", site=body.loc(body.blocks[o]["t"].get("sp")))
         elif ("external" in kinds_o or "ct_eq" in kinds_o) and login_some is not None and login_some in dom.get(o, ()):
             ctx.ok(rule, body.id, "Ok(()) after %s with login present" % ("the external callback accepted" if "external" in kinds_o else "the stored password matched"), site=body.loc(body.blocks[o]["t"].get("sp")))
         else:
